@@ -20,6 +20,12 @@ def make_scheduler(conf, seed, searcher="random", **extra):
     else:
         kw["max_resource_level"] = max_level
     kw.update(extra)
+    if conf.get("de"):
+        from syne_tune.optimizer.schedulers.synchronous import DifferentialEvolutionHyperbandScheduler
+        del kw["bracket_rungs"], kw["searcher"]
+        return DifferentialEvolutionHyperbandScheduler(
+            cs, rungs_first_bracket=[tuple(r) for r in conf["sys"][0]], num_brackets_per_iteration=len(conf["sys"]),
+            support_pause_resume=bool(conf.get("pr", True)), search_options={"debug_log": False}, **kw)
     return SynchronousHyperbandScheduler(cs, **kw)
 
 
@@ -40,6 +46,8 @@ class Episode:
         self.ev.append({"a": "Crash", "where": where, "exc": repr(exc)[:300]})
 
     def _removable(self):
+        if not hasattr(self.sched, "trials_checkpoints_can_be_removed"):
+            return
         try:
             rem = self.sched.trials_checkpoints_can_be_removed()
         except Exception as exc:
@@ -55,6 +63,8 @@ class Episode:
         except Exception as exc:
             return self._crash("suggest", exc)
         if s is None:
+            # the configuration space is continuous: nothing is exhausted, the scheduler refused the job
+            self.ev.append({"a": "NoJob"})
             return
         if s.spawn_new_trial_id:
             t = self.next_id
@@ -72,7 +82,8 @@ class Episode:
             if s.config is not None and t in self.trials:
                 self.trials[t].config = s.config
             isnew = False
-        b, slot = self.sched._trial_to_pending_slot[t]
+        pend = self.sched._trial_to_pending_slot[t]
+        b, slot = (pend.bracket_id, pend) if self.conf.get("de") else pend     # DEHB keeps an extended slot object
         mval = int(s.config.get(MAXRES, 0)) if (self.conf["mra"] and s.config is not None) else 0
         self.state[t] = "running"
         self.level[t] = int(slot.level)
@@ -113,7 +124,7 @@ class Episode:
     def trace(self, tid):
         c = self.conf
         return {"id": tid, "conf": {"sys": [[list(r) for r in rungs] for rungs in c["sys"]], "min": c["min"], "mra": c["mra"],
-                                    "vals": [0], "faults": True}, "ev": self.ev}
+                                    "vals": [0], "faults": True, "de": bool(c.get("de", False)), "pr": bool(c.get("pr", True))}, "ev": self.ev}
 
 
 def run_schedule(conf, schedule, seed) -> Episode:
